@@ -161,6 +161,7 @@ Apply(e) ==
            ELSE IF e.tok < ns[n].tok THEN Fail("wake-up tokens differ")          \* a lost wake-up; more tokens are redundant wake-ups
            ELSE S([ns EXCEPT ![n].tok = e.tok], pc, pend, dm, bm, {})
       [] e.ev = "perr" -> IF Tr.expect.bus THEN Fail(e.msg) ELSE S(ns, pc, pend, dm, bm, {})
+      [] e.ev = "hang" -> Fail("a call into the stack does not return / the stacks produce events without end")
       [] e.ev = "jobdead" -> Fail("job thread died")
       [] e.ev = "spin" -> Fail("job thread busy-spins")
       [] e.ev \in {"lost", "silence", "token", "note", "end", "cfg"} -> S(ns, pc, pend, dm, bm, {})
@@ -174,7 +175,11 @@ DtcCat(s) == IF s = <<>> THEN <<>> ELSE DtcBytes(Head(s).spn, Head(s).fmi, Head(
 Dm1Bytes(x) == LampBytes(LampName(x.lamps.pl), LampName(x.lamps.awl), LampName(x.lamps.rsl), LampName(x.lamps.mil)) \o DtcCat(x.dtcs)
 Dm1Next(d, e) ==
     IF e.ev = "dm1src" THEN [d EXCEPT !.src = Append(@, [lamps |-> e.lamps, dtcs |-> e.dtcs]), !.want = Len(d.src) + 1]
-    ELSE IF e.ev = "api" /\ e.op = "send_pgn" /\ d.want # None /\ e.pf = 254 /\ e.ps = 202 THEN [d EXCEPT !.want = None]
+    ELSE IF e.ev = "api" /\ e.op = "send_pgn" /\ d.want # None /\ e.pf = 254 /\ e.ps = 202
+    THEN IF "ret" \in DOMAIN e /\ e.ret = FALSE
+         \* refused by the transport layer (the previous DM1 is still on the bus): this cycle's DM1 is skipped
+         THEN [d EXCEPT !.want = None, !.src = SubSeq(@, 1, d.want - 1) \o SubSeq(@, d.want + 1, Len(@))]
+         ELSE [d EXCEPT !.want = None]
     ELSE IF e.ev = "dm1rx" THEN [d EXCEPT !.got = @ + 1]
     ELSE d
 Dm1Bad(d, e) ==
@@ -216,6 +221,7 @@ ApplyFree(e) ==
                d2 == DmDeliver(dm, Tr.cfg, n, h)
            IN S(ns, pc, pend, d2.dm, bm, d2.bad)
       [] e.ev = "abs" -> S([ns EXCEPT ![n].snd = e.snd, ![n].rcv = e.rcv], pc, pend, dm, bm, {})
+      [] e.ev = "hang" -> Fail("a call into the stack does not return / the stacks produce events without end")
       [] e.ev = "jobdead" -> Fail("job thread died")
       [] e.ev = "spin" -> Fail("job thread busy-spins")
       [] OTHER -> S(ns, pc, pend, dm, bm, {})
